@@ -4,6 +4,7 @@ import (
 	"encoding/json"
 	"errors"
 	"fmt"
+	"github.com/goatcms/goatcore/filesystem/fsloop"
 	"hash/fnv"
 	"math/rand"
 	"os"
@@ -167,6 +168,10 @@ func genLayout(rng *rand.Rand, idx int, tiny bool) *layout {
 	}
 	if tiny {
 		nfiles = 1 + rng.Intn(4)
+	}
+	if !tiny && idx%40 == 3 {
+		// more translation files than the loop's channels hold ("whatever the number of files")
+		nfiles = fsloop.ChanSize + 1 + rng.Intn(600)
 	}
 	root := ""
 	switch rng.Intn(4) {
@@ -444,6 +449,39 @@ func buildFS(l *layout, disk bool) (filesystem.Filespace, func(), error) {
 	return fs, cleanup, nil
 }
 
+// loadIsStuck looks at two goroutine dumps half a second apart: "" unless, in both, at least one
+// goroutine is inside the library and every one of them is parked on a channel or a sync primitive.
+func loadIsStuck() string {
+	look := func() (int, bool) {
+		buf := make([]byte, 16<<20)
+		n, allParked := 0, true
+		for _, blk := range strings.Split(string(buf[:runtime.Stack(buf, true)]), "\n\n") {
+			if !strings.Contains(blk, "github.com/goatcms/goatcore/") {
+				continue
+			}
+			n++
+			head := blk
+			if i := strings.IndexByte(blk, '\n'); i >= 0 {
+				head = blk[:i]
+			}
+			if !(strings.Contains(head, "[chan send") || strings.Contains(head, "[chan receive") || strings.Contains(head, "[select") || strings.Contains(head, "[sync.") || strings.Contains(head, "[semacquire")) {
+				allParked = false
+			}
+		}
+		return n, allParked
+	}
+	n1, p1 := look()
+	if n1 == 0 || !p1 {
+		return ""
+	}
+	time.Sleep(500 * time.Millisecond)
+	n2, p2 := look()
+	if n2 == 0 || !p2 {
+		return ""
+	}
+	return fmt.Sprintf("%d goroutines inside the library, all parked on channels or locks in two dumps half a second apart", n2)
+}
+
 func runLoad(c *sup.Child, b sup.Batch) {
 	procs := b.P("procs", 1)
 	defaultMaxJob := workers.MaxJob
@@ -458,6 +496,9 @@ func runLoad(c *sup.Child, b sup.Batch) {
 		disk := idx%9 == 8 && l.failOp == "" && l.broken == ""
 		useScope := idx%2 == 1
 		level := []int{0, 1, 2, 2, 3}[rng.Intn(5)]
+		if len(l.files) > fsloop.ChanSize && level > 1 {
+			level = 1 // thousands of files: yields only, no sleeps
+		}
 		maxJob := []int{1, 2, 3, defaultMaxJob, defaultMaxJob, 4}[rng.Intn(6)]
 		pollers := []int{0, 0, 1, 2}[rng.Intn(4)]
 		noiseSeed := rng.Uint64()
@@ -506,9 +547,42 @@ func runLoad(c *sup.Child, b sup.Batch) {
 					}
 				}(p)
 			}
-			lerr := fsi18loader.Load(nfs, l.base, i18, scp)
+			var lerr error
+			loaded := make(chan struct{})
+			go func() {
+				defer close(loaded)
+				lerr = fsi18loader.Load(nfs, l.base, i18, scp)
+			}()
+			// The timer only decides when to look: the verdict comes from two goroutine dumps – a
+			// violation iff every goroutine inside the library is parked (channel / sync) in both,
+			// i.e. nobody is left who could ever let Load return. A load that is merely slow is
+			// inconclusive after the last look.
+			returned := false
+			for look := 0; look < 12 && !returned; look++ {
+				select {
+				case <-loaded:
+					returned = true
+				case <-time.After(20 * time.Second):
+					atomic.StoreInt32(&stop, 1) // the Translate callers are inside the library too: they leave first
+					wg.Wait()
+					if why := loadIsStuck(); why != "" {
+						r.Violate("load-never-returns", fmt.Sprintf("Load(%q) over %d json files does not return: %s", l.base, len(l.files), why),
+							map[string]any{"json_files": len(l.files), "procs": procs, "maxjob": maxJob, "noise": level, "scope": useScope, "disk": disk})
+						return
+					}
+				}
+			}
+			if !returned {
+				atomic.StoreInt32(&stop, 1)
+				wg.Wait()
+				r.Inconclusive = fmt.Sprintf("Load over %d files did not return within the watchdog while goroutines inside the library were still running", len(l.files))
+				return
+			}
 			atomic.StoreInt32(&stop, 1)
 			wg.Wait()
+			if len(l.files) > fsloop.ChanSize {
+				r.AddObs("loads_of_more_files_than_the_loop_channels_hold", 1)
+			}
 
 			wit := map[string]any{"layout": clip(l.canon(), 4000), "procs": procs, "maxjob": maxJob, "noise": level, "scope": useScope, "disk": disk}
 			r.AddObs("load_calls", 1)
